@@ -72,16 +72,21 @@ CHECKS = {
          "Outside: descriptor-producing operations (accept/open/socket) under cancellation — they need real descriptors and a live "
          "driver; > 1 preemption; weak memory. One genuine defect repaired (second close() lost wake-up)."),
  "C01": dict(
-    engine="kani",
+    engine="kani + mirsym",
     technique="bounded model checking of the compiled key/cancel/pop layer of compio-driver (Kani/CBMC) with the harness acting as a "
-              "contract-abiding adversarial driver through the __verif hook; CBMC's use-after-free/double-free checks plus drop counters",
+              "contract-abiding adversarial driver through the __verif hook; CBMC's use-after-free/double-free checks plus drop counters; "
+              "second layer: symbolic execution of the MIR of the io_uring driver's poll_entries / Drop against every contract-abiding "
+              "completion queue within the bound, with ghost reference counting (mirsym, z3)",
     category="proof",
     text="Proof within bounds, above the driver: for an operation accepted for submission, its buffer is not dropped while either the "
          "kernel's reference (returned only by the final completion) or the submitter's key exists — for cancel-before-completion, "
          "completion-before-cancel, runtime (Proactor) drop before/after the key, in every order — and is dropped exactly once afterwards. "
          "In the polling configuration (keys via __verif::detached_key): the final completion reaches the operation's own "
          "OpCode::set_result exactly once, with the driver's result, while the operation is alive, also when the submitter abandoned "
-         "it first, and what the completion handed to the operation is released with it.",
+         "it first, and what the completion handed to the operation is released with it. io_uring driver layer (MIR, adversarial "
+         "completion queue: any number of F_MORE completions then at most one final one per operation, 2 operations, <= 3/4 entries): "
+         "poll_entries returns an operation's kernel reference iff its final completion was queued; Driver::drop returns every "
+         "reference exactly once, after closing the ring.",
     design_ref="DESIGN.md §1 C01/C02/C05",
     note="Conditional on the drivers honouring 'one leaked reference per accepted submission, returned by exactly one final completion': "
          "iour/mod.rs, poll/mod.rs (FFI, HashMap, flume, kernel), zero-copy notification ordering, multishot, thread-pool FrozenKey and the "
